@@ -2,5 +2,7 @@ SPECIFICATION Spec
 CONSTANTS
     MaxTickets = 3
     MaxSteps = 6
-INVARIANTS TicketAtMostOnce MemMatchesFileOrEmpty EmitHist
+    Faults = FALSE
+    SendDespiteFault = FALSE
+INVARIANTS TicketAtMostOnce MemMatchesFileOrEmpty UsedIsGone EmitHist
 CHECK_DEADLOCK FALSE
